@@ -89,12 +89,12 @@ def local_defs(func, inl=None):
     for x in walk(body):
         if x.get('kind') == 'VarDecl' and x.get('name') and kids(x) and not written.get(x['id']) and names.get(x['name']) == 1:
             t = dtype(x) or ''
-            if int_type_info(t) is None or (x.get('storageClass') == 'static' and not (qtype(x) or '').startswith('const')):
+            if (int_type_info(t) is None and not ((qtype(x) or '').rstrip().endswith('*const') or (qtype(x) or '').rstrip().endswith('* const'))) or (x.get('storageClass') == 'static' and not (qtype(x) or '').startswith('const')):
                 continue
             if enclosing(x, ('ForStmt', 'WhileStmt', 'DoStmt', 'CXXForRangeStmt')) is not None and False:
                 continue
             init = kids(x)[-1]
-            if any(c.get('kind') in ('CallExpr', 'CXXMemberCallExpr', 'CXXOperatorCallExpr') and (call_name(c) or '') not in ('min', 'max', 'size', 'length', 'remaining', 'where', 'operator[]', 'at', 'data') and not (call_name(c) or '').startswith('operator ') for c in walk(init)):
+            if any(c.get('kind') in ('CallExpr', 'CXXMemberCallExpr', 'CXXOperatorCallExpr') and (call_name(c) or '') not in ('min', 'max', 'size', 'length', 'remaining', 'where', 'operator[]', 'at', 'data', 'c_str') and not (call_name(c) or '').startswith('operator ') for c in walk(init)):
                 continue     # only pure arithmetic over parameters / fields / observers
             s = canon(init)
             if inl is not None:
